@@ -2355,7 +2355,6 @@ class BDD(dd._abc.BDD[_Ref]):
                 f'`self` ({self!r})')
         return i
 
-    @_try_to_reorder
     def cube(
             self,
             dvars:
@@ -2363,10 +2362,22 @@ class BDD(dd._abc.BDD[_Ref]):
                 _abc.Iterable[
                     _VariableName]
             ) -> _Ref:
+        # `dvars` can be an iterator, and
+        # the method below can be called twice
+        # (when the variables are reordered)
         if not isinstance(dvars, dict):
             dvars = {
                 k: True
                 for k in dvars}
+        return self._cube_of_literals(dvars)
+
+    @_try_to_reorder
+    def _cube_of_literals(
+            self,
+            dvars:
+                _Assignment
+            ) -> _Ref:
+        """Return conjunction of literals in `dvars`."""
         # `dvars` keys can be var names or levels
         r = self.true
         for var, val in dvars.items():
